@@ -1,7 +1,7 @@
 //vp:property C19
 //vp:pkg ./storage
 //vp:roots ./tsdb/chunkenc ./model/histogram
-//vp:bounds chainSampleIterator (sample-level merge with de-duplication) over k<=3 input iterators with <=2 float samples each (thorough 3), symbolic strictly increasing timestamps in [-2^62, 2^62] per input (equal timestamps across inputs included), values arbitrary bits; drained with Next, or Seek(x) with arbitrary x followed by Next; also with the iterator object reused after a previous series (1..2 samples, partly or fully consumed; next merge over <=2 inputs)
+//vp:bounds chainSampleIterator (sample-level merge with de-duplication) over k<=3 input iterators with <=2 float samples each (thorough: 3 samples for k<=2), symbolic strictly increasing timestamps in [-2^62, 2^62] per input (equal timestamps across inputs included), values arbitrary bits; drained with Next, or Seek(x) with arbitrary x followed by Next; also with the iterator object reused after a previous series (1..2 samples, partly or fully consumed; next merge over <=2 inputs)
 //vp:assume per input: timestamps strictly increasing and within +-2^62 (never the MinInt64 sentinel)
 package storage
 
@@ -66,6 +66,9 @@ func vpXInputsKT(kQuick, kThorough int) ([][]vpXSample, []chunkenc.Iterator) {
 		kHi, nHi = kThorough, 3
 	}
 	k := vpShape("k", 1, kHi)
+	if vpThorough() && k >= 3 {
+		nHi = 2 // thorough: up to 2 inputs of up to 3 samples, or 3 inputs of up to 2 (3x3 ran for hours)
+	}
 	ins := make([][]vpXSample, k)
 	its := make([]chunkenc.Iterator, k)
 	for i := range ins {
